@@ -37,7 +37,7 @@ func init() {
 		Rule: "one run = histories of json calls (Marshal, Encoder.Encode, Unmarshal, Parse with a ParseFlags subset, Decoder.Decode×k over a simulated reader, Tokenizer pass, scribble over an input, recheck) for 1..3 simulated goroutines plus pool policy and schedule, from the tape; non-trivial = at least one fault fired (an input was scribbled while results from it were live, a pooled buffer was reused after poison, the Decoder refilled its buffer between two results, or a context switch happened); distinct = distinct hash of (operations, documents, flags, schedule trace)",
 		FaultKinds: []string{"scribble-input-with-live-results", "tokenizer-reset-and-reused", "destination-decoded-into-again", "pooled-buffer-poisoned-and-reused", "decoder-refill-between-results", "decoder-reader-chunked", "context-switch", "zero-copy-flags", "loose-capacity-input",
 			"pool-policy:lifo", "pool-policy:fifo", "pool-policy:random", "pool-policy:never-reuse", "pool-policy:drop-on-put"},
-		ProbeNames: []string{"ops", "inputs-checked-unchanged", "result-leaves-tracked", "leaves-aliasing-input(allowed)", "leaves-rechecked-after-scribble", "marshal-results-rechecked", "decoder-values", "decoder-zero-copy-values-checked-until-next-decode", "encoder-inputs-checked-unchanged", "tokenizer-strings", "writer-buffers-checked-stable-during-write", "decoder-leaves-in-read-buffer(allowed)", "tokenizer-strings-unescaped(own memory, tracked)"},
+		ProbeNames: []string{"ops", "inputs-checked-unchanged", "result-leaves-tracked", "leaves-aliasing-input(allowed)", "leaves-rechecked-after-scribble", "marshal-results-rechecked", "decoder-values", "decoder-zero-copy-values-checked-until-next-decode", "encoder-inputs-checked-unchanged", "tokenizer-strings", "writer-buffers-checked-stable-during-write", "decoder-leaves-in-read-buffer(allowed)", "tokenizer-strings-unescaped(own memory, tracked)", "utility-calls"},
 		Real:       []string{"json.Marshal/Encoder/Unmarshal/Parse/Decoder/Tokenizer compiled from /repo's working tree with sync redirected to the shim"},
 		Model:      []string{"sync.Pool (simulated; poison on put, LIFO reuse by default)", "scheduler", "io.Reader (simio.Reader)", "caller buffers (simio.GuardedBuf: canaries + shadow copy)"},
 		Assumptions: []string{
@@ -82,9 +82,10 @@ const (
 	c10Tokenizer
 	c10Scribble
 	c10Recheck
+	c10Util
 )
 
-var c10OpNames = []string{"Marshal", "Encoder.Encode", "Unmarshal", "Parse", "Decoder.Decode", "Tokenizer", "scribble", "recheck"}
+var c10OpNames = []string{"Marshal", "Encoder.Encode", "Unmarshal", "Parse", "Decoder.Decode", "Tokenizer", "scribble", "recheck", "utility (Append, MarshalIndent, Valid, Compact, Indent, HTMLEscape, Escape, Unescape)"}
 
 type c10Op struct {
 	kind    int
@@ -109,6 +110,10 @@ type c10Op struct {
 	useNum  bool
 	// Tokenizer: Reset and reuse the task's previous Tokenizer
 	tokReset bool
+	// utility ops
+	sub    int
+	prefix []byte
+	aflags json.AppendFlags
 }
 
 const (
@@ -143,6 +148,9 @@ var (
 	tNumber = reflect.TypeOf(json.Number(""))
 	tRawMsg = reflect.TypeOf(json.RawMessage(nil))
 )
+
+// t0cap varies the spare capacity of Append's destination deterministically.
+func t0cap(a, b int) int { return []int{0, 1, 7, 64, 4096}[(a+b)%5] }
 
 func strBytes(s string) []byte {
 	if len(s) == 0 {
@@ -297,7 +305,20 @@ func c10Perturb(t *tape.Tape, doc []byte) []byte {
 	b := append([]byte(nil), doc...)
 	n := t.Range(1, 3)
 	for k := 0; k < n && len(b) > 0; k++ {
-		switch t.Pick(4, 2, 1, 1, 1, 1) {
+		switch t.Pick(4, 2, 1, 1, 1, 1, 2) {
+		case 6: // a member with a long key in mixed case (no field has that name) in front of an object's members
+			if i := bytes.IndexByte(b, '{'); i >= 0 {
+				n := []int{31, 32, 33, 63, 64, 65, 66, 100, 129, 300}[t.Intn(10)]
+				key := make([]byte, n)
+				for j := range key {
+					key[j] = "aBcDeFgHiJkLmNoPqRsTuVwXyZ_0"[(j*7+n)%28]
+				}
+				ins := append(append([]byte{'"'}, key...), `":0`...)
+				if j := i + 1; j < len(b) && b[j] != '}' {
+					ins = append(ins, ',')
+				}
+				b = append(b[:i+1:i+1], append(ins, b[i+1:]...)...)
+			}
 		case 0, 1: // leading zeroes in a number (quoted or bare)
 			start := t.Intn(len(b))
 			for i := 0; i < len(b); i++ {
@@ -360,7 +381,7 @@ func c10GenTask(r *core.Run, t *tape.Tape) []*c10Op {
 	var ops []*c10Op
 	for j := 0; j < n; j++ {
 		op := &c10Op{}
-		op.kind = t.Pick(3, 2, 3, 5, 3, 1, 2, 1)
+		op.kind = t.Pick(3, 2, 3, 5, 3, 1, 2, 1, 2)
 		switch op.kind {
 		case c10Marshal, c10Encoder:
 			op.ty = c10Types(t)
@@ -445,6 +466,25 @@ func c10GenTask(r *core.Run, t *tape.Tape) []*c10Op {
 				op.script = append(op.script, e.N)
 			}
 			op.tail = rd.Tail
+		case c10Util:
+			op.sub = t.Intn(8)
+			op.ty = c10Types(t)
+			op.val, op.valCopy = c10Value(t, op.ty)
+			op.byValue = t.Bool()
+			op.prefix = []byte("prefix-0123456789")[:t.Intn(18)]
+			op.aflags = json.AppendFlags(t.Intn(8))
+			var doc []byte
+			if op.sub >= 6 {
+				// a string literal with escapes
+				g := &gen.JSONDoc{T: t}
+				doc = g.Key(nil)
+			} else {
+				doc = c10Doc(t, op.ty, false)
+			}
+			op.buf = simio.NewGuarded(len(doc), 0, 0xEE)
+			copy(op.buf.Body(), doc)
+			op.buf.Snapshot()
+			op.flags = c10Flags(t) & json.ZeroCopy
 		case c10Scribble:
 			op.target = -1
 			var cands []int
@@ -780,6 +820,62 @@ func c10Exec(task int, ops []*c10Op, tr *c10TaskRes) {
 				lastBatches = len(rd.Batches)
 				simhook.Yield(simhook.KOp, -1)
 			}
+		case c10Util:
+			in := op.buf.Body()
+			own := func(b []byte, what string) {
+				if len(b) == 0 {
+					return
+				}
+				l := leaf{view: b, snap: append([]byte(nil), b...), kind: leafMarshal, op: j, path: what}
+				base := uintptr(unsafe.Pointer(&op.buf.All[0]))
+				if p := uintptr(unsafe.Pointer(&b[0])); p >= base && p < base+uintptr(len(op.buf.All)) {
+					tr.failf("utility-result-aliases-input", "%s returned memory inside the input it was given", what)
+				}
+				tr.leaves = append(tr.leaves, l)
+			}
+			switch op.sub {
+			case 0:
+				pre := append(make([]byte, 0, len(op.prefix)+t0cap(op.sub, j)), op.prefix...)
+				b, err := json.Append(pre, op.arg(), op.aflags)
+				if err == nil {
+					if !bytes.HasPrefix(b, op.prefix) {
+						tr.failf("append-prefix-changed", "json.Append changed the bytes already in the buffer it appends to")
+					}
+					own(b, "Append()")
+				}
+			case 1:
+				b, err := json.MarshalIndent(op.arg(), "", " ")
+				if err == nil {
+					own(b, "MarshalIndent()")
+				}
+			case 2:
+				json.Valid(in)
+			case 3:
+				var bb bytes.Buffer
+				if json.Compact(&bb, in) == nil {
+					own(bb.Bytes(), "Compact()")
+				}
+			case 4:
+				var bb bytes.Buffer
+				if json.Indent(&bb, in, "", "\t") == nil {
+					own(bb.Bytes(), "Indent()")
+				}
+			case 5:
+				var bb bytes.Buffer
+				json.HTMLEscape(&bb, in)
+				own(bb.Bytes(), "HTMLEscape()")
+			case 6:
+				own(json.Unescape(in), "Unescape()")
+				own(json.AppendUnescape(append([]byte(nil), op.prefix...), in, op.flags), "AppendUnescape()")
+			case 7:
+				own(json.Escape(string(in)), "Escape()")
+				own(json.AppendEscape(append([]byte(nil), op.prefix...), string(in), op.aflags), "AppendEscape()")
+			}
+			if op.sub <= 1 && !reflect.DeepEqual(op.val.Interface(), op.valCopy.Interface()) {
+				tr.failf("encoder-input-modified", "%s modified the value it was given", []string{"Append", "MarshalIndent"}[op.sub])
+			}
+			tr.probes["utility-calls"]++
+			tr.checkInput(op, "utility call")
 		case c10Scribble:
 			if op.target >= 0 {
 				tg := ops[op.target]
